@@ -71,7 +71,7 @@ class CanvasRunner:
                 f.write('step "%s" command { "%s" "%s" }%s\n' % (name, os.path.join(sh.bin, "probe"), name, " parallel" if par else ""))
         with open(plan, "w") as f:
             for name, par, sleep, ex in cfg["steps"]:
-                f.write("%s %d %d\n" % (name, sleep, ex))
+                f.write("%s %d %d %d\n" % (name, sleep, ex, cfg.get("linger", {}).get(name, 0)))
         env = dict(VERIF_ROOT=root, VERIF_PROBE_LOG=probelog, VERIF_PROBE_PLAN=plan, VERIF_HOOK_LOG=hooklog, VERIF_MAIL_LOG=maillog,
                    ROBSD_VERIF_NCPU=str(cfg["ncpu"]), ROBSDWAIT=self.wait, ROBSDCONF=conf)
         if extra_env:
